@@ -9,6 +9,7 @@ violating history of the walk, random histories and (thorough) all ordered pairs
 of representative events.  A violation is only ever reported from a fresh
 interpreter, as a case {'history': [event names], 'probe': event-or-'digest'}."""
 import json
+import os
 import random
 import time
 from collections import deque
@@ -362,6 +363,78 @@ CHECKS = {'walk': check_walk, 'history': check_history}
 
 
 # --------------------------------------------------------------------------
+# --------------------------------------------------------------------------
+# round 8: a lazily loaded group registered by the USER through core.delayed_load (documented extension point)
+# --------------------------------------------------------------------------
+USERGROUP_CHILD = r"""
+import sys, json
+import periodictable
+from periodictable import core, elements
+from periodictable.core import Element
+flags = json.loads(sys.argv[1]); order = json.loads(sys.argv[2])
+def _load():
+    "user data: shell energy"
+    Element.shell_energy = None          # class-level default for missing data
+    elements.Fe.shell_energy = 7.112
+    elements.Fe[56].shell_energy = 7.1121
+    elements.Fe.ion[2].shell_energy = 7.120
+    elements.Ni.shell_energy = 8.333
+core.delayed_load(['shell_energy'], _load, element=True, isotope=flags[0], ion=flags[1])
+OBJ = {"Fe": lambda: elements.Fe, "Fe56": lambda: elements.Fe[56], "Fe2+": lambda: elements.Fe.ion[2],
+       "Ni": lambda: elements.Ni, "Ni58": lambda: elements.Ni[58], "Ni2+": lambda: elements.Ni.ion[2],
+       "Fe56_2+": lambda: elements.Fe[56].ion[2], "Cu": lambda: elements.Cu, "Cu63": lambda: elements.Cu[63],
+       "Cu1+": lambda: elements.Cu.ion[1]}
+def read(name):
+    try:
+        return repr(OBJ[name]().shell_energy)
+    except AttributeError:
+        return "AttributeError"
+for name in order:
+    read(name)
+print("USERGROUP " + json.dumps({"where": periodictable.__file__, "values": dict((n, read(n)) for n in sorted(OBJ))}))
+"""
+USERGROUP_EXPECTED = {'Fe': '7.112', 'Fe56': '7.1121', 'Fe2+': '7.12', 'Ni': '8.333', 'Ni58': '8.333', 'Ni2+': '8.333',
+                      'Fe56_2+': '7.1121', 'Cu': 'None', 'Cu63': 'None', 'Cu1+': 'None'}
+USERGROUP_HISTORIES = ([], ['Fe'], ['Fe2+'], ['Fe56'], ['Cu'], ['Ni2+', 'Fe'], ['Fe56_2+'], ['Fe', 'Fe2+'],
+                       ['Fe56', 'Ni2+', 'Cu'], ['Cu1+'], ['Cu63', 'Fe2+'], ['Ni58'])
+
+
+def check_usergroup(ctx, case):
+    """A property group registered through core.delayed_load for Element and (by flag) Isotope and Ion serves what
+    its loader set - specific values on the element, the isotope and the ion, the class default elsewhere, through
+    delegation for isotopes and ions without a value of their own - whichever object is touched first."""
+    import subprocess
+    import sys
+    flags, order = case['flags'], case['history']
+    try:
+        p = subprocess.run([sys.executable, '-c', USERGROUP_CHILD, json.dumps(flags), json.dumps(order)],
+                           capture_output=True, text=True, timeout=180, env=X.fresh_env())
+    except subprocess.TimeoutExpired:
+        ctx.harness_error('user-group interpreter timed out')
+        return
+    line = [l for l in p.stdout.splitlines() if l.startswith('USERGROUP ')]
+    ctx.evaluated(len(USERGROUP_EXPECTED), 'usergroup-read')
+    ctx.count('usergroup.runs')
+    ctx.distinct_case(('usergroup', tuple(flags), tuple(order)))
+    if not line:
+        ctx.violation('user-registered lazy group (isotope=%r, ion=%r), first touches %r: the interpreter died: %s'
+                      % (flags[0], flags[1], order, (p.stderr or p.stdout).strip().splitlines()[-1:]),
+                      check='usergroup', case=case, kind='usergroup')
+        return
+    out = json.loads(line[0][len('USERGROUP '):])
+    if not out['where'].startswith(X.repo_root() + os.sep):
+        ctx.harness_error('user-group interpreter imported %s' % out['where'])
+        return
+    bad = dict((k, v) for k, v in out['values'].items() if v != USERGROUP_EXPECTED[k])
+    if bad:
+        ctx.violation('user-registered lazy group (isotope=%r, ion=%r), first touches %r: reads %r, the loader set %r'
+                      % (flags[0], flags[1], order, bad, dict((k, USERGROUP_EXPECTED[k]) for k in bad)),
+                      check='usergroup', case=case, kind='usergroup')
+
+
+CHECKS['usergroup'] = check_usergroup
+
+
 def _fresh_cases(ctx):
     """All fresh-interpreter cases of the tier, identical in every shard (own RNG, seed only)."""
     rng = random.Random(ctx.seed * 7919 + 11)
@@ -391,6 +464,11 @@ def generate(ctx):
         if ctx.thorough():
             yield 'walk', {'abstraction': 'fine', 'alphabet': 'representative', 'cap': STATE_CAP['thorough']}
     workers = list(range(1, ctx.nshards)) or [0]
+    ug = [{'flags': [iso, ion], 'history': list(h)} for iso in (False, True) for ion in (False, True)
+          for h in USERGROUP_HISTORIES]
+    for i, c in enumerate(ug):
+        if workers[i % len(workers)] == ctx.shard:
+            yield 'usergroup', c
     mine = [c for i, c in enumerate(_fresh_cases(ctx)) if workers[i % len(workers)] == ctx.shard]
     jobs = FRESH_JOBS[ctx.tier]
     if jobs <= 1:
@@ -423,6 +501,7 @@ def finish(ctx):
     if ctx.replay:
         return
     ctx.require('cases.walk', 1, 'the fork walk must have run')
+    ctx.require('usergroup.runs', 4 * len(USERGROUP_HISTORIES), 'every user-registered lazy group history must have run')
     ctx.require('closure_reached.coarse', 1, 'the full-alphabet walk must reach closure of the abstract loader state '
                                              '(no cap, no dead child, no inconsistent replay)')
     for g, d in X.GROUPS.items():
